@@ -600,6 +600,25 @@ func (e *kengine) refine(s *kstate, cond ssa.Value, pol bool) {
 			}
 			e.set(s, args[0], f)
 		default:
+			// a predicate over kinds (`isUnsignedKind(v.Kind())`): the kinds for which it can answer pol
+			if e.p.InPkg(callee) && callee.Signature.Recv() == nil && len(args) == 1 && isKindPredicate(callee) {
+				if x, ok := e.reflectCall(args[0], "Kind"); ok {
+					f := e.get(s, x)
+					var keep KindSet
+					for k := 0; k < numKinds; k++ {
+						if f.kinds&(1<<k) == 0 {
+							continue
+						}
+						canT, canF := evalKindPredicate(callee, k)
+						if (pol && canT) || (!pol && canF) {
+							keep |= 1 << k
+						}
+					}
+					f.kinds = keep
+					e.set(s, x, f)
+				}
+				return
+			}
 			// predicate method of *Value: refine the resolved value's kinds
 			if e.preds != nil && e.p.InPkg(callee) && callee.Signature.Recv() != nil && len(args) == 1 {
 				if sum, ok := e.preds.get(callee); ok {
@@ -1322,3 +1341,85 @@ func (e *kengine) refineCorrelated(s *kstate, lastv ssa.Value, want func(ssa.Val
 }
 
 var kVisiting = map[*ssa.Function]bool{}
+
+// isKindPredicate: func(k reflect.Kind) bool of the package.
+func isKindPredicate(g *ssa.Function) bool {
+	if g == nil || g.Blocks == nil || len(g.Params) != 1 || g.Signature.Results().Len() != 1 {
+		return false
+	}
+	n, ok := g.Params[0].Type().(*types.Named)
+	if !ok || n.Obj().Pkg() == nil || n.Obj().Pkg().Path() != "reflect" || n.Obj().Name() != "Kind" {
+		return false
+	}
+	b, ok := g.Signature.Results().At(0).Type().Underlying().(*types.Basic)
+	return ok && b.Kind() == types.Bool
+}
+
+// evalKindPredicate runs g for the kind k: comparisons of the parameter with constants are decided, every other branch
+// goes both ways; which booleans can come back.
+func evalKindPredicate(g *ssa.Function, k int) (canTrue, canFalse bool) {
+	type at struct{ b, from *ssa.BasicBlock }
+	seen := map[at]bool{}
+	var walk func(b, from *ssa.BasicBlock)
+	boolOf := func(v ssa.Value, b, from *ssa.BasicBlock) (val, known bool) {
+		for d := 0; d < 4; d++ {
+			if ph, ok := v.(*ssa.Phi); ok && ph.Block() == b && from != nil {
+				for i, pr := range b.Preds {
+					if pr == from {
+						v = ph.Edges[i]
+					}
+				}
+				continue
+			}
+			break
+		}
+		if c, ok := v.(*ssa.Const); ok && c.Value != nil && c.Value.Kind() == constant.Bool {
+			return constant.BoolVal(c.Value), true
+		}
+		if bo, ok := v.(*ssa.BinOp); ok && (bo.Op == token.EQL || bo.Op == token.NEQ) {
+			for _, pr := range [][2]ssa.Value{{bo.X, bo.Y}, {bo.Y, bo.X}} {
+				if pr[0] == ssa.Value(g.Params[0]) {
+					if kk, isK := kindConst(pr[1]); isK {
+						return (kk == k) == (bo.Op == token.EQL), true
+					}
+				}
+			}
+		}
+		return false, false
+	}
+	walk = func(b, from *ssa.BasicBlock) {
+		if seen[at{b, from}] {
+			return
+		}
+		seen[at{b, from}] = true
+		switch last := b.Instrs[len(b.Instrs)-1].(type) {
+		case *ssa.Return:
+			if v, known := boolOf(last.Results[0], b, from); known {
+				if v {
+					canTrue = true
+				} else {
+					canFalse = true
+				}
+			} else {
+				canTrue, canFalse = true, true
+			}
+		case *ssa.If:
+			if v, known := boolOf(last.Cond, b, from); known {
+				if v {
+					walk(b.Succs[0], b)
+				} else {
+					walk(b.Succs[1], b)
+				}
+			} else {
+				walk(b.Succs[0], b)
+				walk(b.Succs[1], b)
+			}
+		default:
+			for _, sc := range b.Succs {
+				walk(sc, b)
+			}
+		}
+	}
+	walk(g.Blocks[0], nil)
+	return
+}
